@@ -1,6 +1,7 @@
 package redis
 
 import (
+	"sort"
 	"strings"
 
 	"github.com/New-JAMneration/JAM-Protocol/internal/database"
@@ -15,6 +16,19 @@ type iterator struct {
 	values    [][]byte
 }
 
+// escapeGlob escapes the glob metacharacters of a literal key prefix for use in a SCAN MATCH pattern.
+func escapeGlob(s string) string {
+	var sb strings.Builder
+	for i := 0; i < len(s); i++ {
+		switch s[i] {
+		case '*', '?', '[', ']', '\\', '^', '-':
+			sb.WriteByte('\\')
+		}
+		sb.WriteByte(s[i])
+	}
+	return sb.String()
+}
+
 // NewIterator creates a new iterator for the given prefix. The start key is inclusive.
 func (db *redisDB) NewIterator(prefix []byte, start []byte) (database.Iterator, error) {
 	buf := make([]byte, 0, len(prefix)+len(start))
@@ -27,7 +41,9 @@ func (db *redisDB) NewIterator(prefix []byte, start []byte) (database.Iterator, 
 	allKeys := make([]string, 0, 100)
 	var err error
 
-	pattern := startString + "*"
+	prefixString := string(prefix)
+	pattern := escapeGlob(prefixString) + "*"
+	seen := make(map[string]struct{})
 
 	for {
 		var keys []string
@@ -38,7 +54,11 @@ func (db *redisDB) NewIterator(prefix []byte, start []byte) (database.Iterator, 
 
 		// Filter keys that match the prefix
 		for _, key := range keys {
-			if strings.HasPrefix(key, startString) {
+			if _, dup := seen[key]; dup {
+				continue // SCAN may return a key more than once
+			}
+			if strings.HasPrefix(key, prefixString) && strings.Compare(key, startString) >= 0 {
+				seen[key] = struct{}{}
 				allKeys = append(allKeys, key)
 			}
 		}
@@ -47,6 +67,9 @@ func (db *redisDB) NewIterator(prefix []byte, start []byte) (database.Iterator, 
 			break
 		}
 	}
+
+	// SCAN returns keys in no particular order: iterate in ascending byte order
+	sort.Strings(allKeys)
 
 	// Pre-allocate capacity for keys and values
 	keys := make([][]byte, 0, len(allKeys))
